@@ -663,6 +663,9 @@ impl Property for C05 {
         // builds (and samples) of fixed seed graphs must not change during the life of
         // the worker process (state corrupted by earlier builds)
         crate::prop_sc::canary_check(&mut res);
+        if index % 2048 == 5 {
+            crate::prop_sc::teardown_check(&mut res);
+        }
         if index < 64 {
             let m = model(&spec);
             res.sample = Some(json!({
@@ -678,6 +681,10 @@ impl Property for C05 {
     }
     fn replay(&self, case: &Value) -> OneResult {
         let mut res = OneResult::default();
+        if case["kind"] == "teardown" {
+            crate::prop_sc::teardown_check(&mut res);
+            return res;
+        }
         if case["kind"] == "canary" {
             return res; // only the prefix replay can show it
         }
